@@ -249,6 +249,8 @@ def run(ctx):
     ctx.units("expected-lists", unit_expected, [{}])
     ctx.units("corpus", unit_bad, [{}])
     ctx.units("state-x-kind", unit_states, [{}])
+    from . import magnitude
+    magnitude.run_big(ctx, "c14", "check_text", "text")
     ctx.units("noisy-documents", unit_noisy, [{"n": 1050 if q else 9000, "seed": ctx.seed, "shard": i} for i in range(8 if q else 16)], procs=16)
     ns = 16
     ctx.units("fault-combinations", unit_combos, [{"lengths": [1, 2, 3, 4] if q else [1, 2, 3, 4, 5], "sampled_length": 4 if q else 5, "sample": 2 if q else 3, "seed": ctx.seed,
